@@ -17,7 +17,9 @@ from engine import fakes_dist as fd
 from engine.fakes_dist import World, View, ServerView, position, nm, tok, same, conj, OWN, MAX_LEVEL
 
 import aioslsk.distributed as dist_mod
-from aioslsk.constants import DEFAULT_PARENT_MIN_SPEED, DEFAULT_PARENT_SPEED_RATIO
+from collections import deque
+
+from aioslsk.constants import DEFAULT_PARENT_MIN_SPEED, DEFAULT_PARENT_SPEED_RATIO, POTENTIAL_PARENTS_CACHE_SIZE
 from aioslsk.distributed import DistributedNetwork, DistributedPeer
 from aioslsk.network.connection import ConnectionState, PeerConnectionType, PeerConnection, DataConnection, ListeningConnection
 from aioslsk.network.network import Network
@@ -87,7 +89,19 @@ class Ghost:
         self.max_ref = dn._max_children
         self.min_speed_ref = dn.parent_min_speed
         self.ratio_ref = dn.parent_speed_ratio
+        # reference potential-parent cache: the last POTENTIAL_PARENTS_CACHE_SIZE names the server proposed, book-kept
+        # by the harness from the PotentialParents messages it delivers (starts as the pre-state's cache)
+        self.pp_ref = deque(dn.potential_parents, maxlen=POTENTIAL_PARENTS_CACHE_SIZE)
+        self.joining = []       # (connection, was it eligible as a child when it connected)
         self.snapshot()
+
+    def on_potential_parents(self, names):
+        self.pp_ref.extend(names)
+
+    def eligible(self, username):
+        """a peer that opens a distributed connection to us now would be a child: acceptance is on, the number of
+        children is below the maximum, the server did not propose that user as potential parent"""
+        return conj(self.accept_ref, len(self.children_prev) < self.max_ref, *[username != p for p in self.pp_ref])
 
     def assume_invariant(self):
         """one-step harness: the pre-state satisfies the advertised-position clauses"""
@@ -104,6 +118,7 @@ class Ghost:
         self.max_ref = dn._max_children
         self.min_speed_ref = dn.parent_min_speed
         self.ratio_ref = dn.parent_speed_ratio
+        self.pp_ref = deque(dn.potential_parents, maxlen=POTENTIAL_PARENTS_CACHE_SIZE)
         self.snapshot()
 
     def snapshot(self):
@@ -111,7 +126,7 @@ class Ghost:
         self.children_prev = [p.connection for p in dn.children]
         self.accept_prev = self.accept_ref
         self.max_prev = self.max_ref
-        self.pp_prev = list(dn.potential_parents)
+        self.pp_prev = list(self.pp_ref)
         self.parent_prev = dn.parent.connection if dn.parent is not None else None
 
     def consume(self):
@@ -205,7 +220,16 @@ class Ghost:
                       'potential_parent_not_child', sig=ev)
                 check(ev[0] != 'outgoing', 'potential_parent_not_child', sig=ev)
                 n_prev += 1
+        # the other direction: a peer that connected to us (directly or through the server-relayed path) while it
+        # was eligible is a child afterwards (unless its connection is gone again)
+        for conn, elig in self.joining:
+            if conn.state in (ConnectionState.CLOSING, ConnectionState.CLOSED):
+                continue
+            if not any(ch.connection is conn for ch in dn.children):
+                check(neg(elig), 'eligible_peer_becomes_child', sig=ev)
+        self.joining = []
         self.children_prev = [p.connection for p in dn.children]
+        self.pp_prev = list(self.pp_ref)
 
     # ---- reference for the limits ---------------------------------------------
     def on_stats(self, user, speed):
@@ -228,7 +252,7 @@ GLOBAL_EVENTS = ('incoming', 'outgoing', 'pp_list', 'user_stats', 'min_speed', '
                  'session_destroyed', 'session_initialized')
 
 
-def apply_event(c, w: World, g: Ghost, kind, conn=None, tag='', stall_new=0):
+def apply_event(c, w: World, g: Ghost, kind, conn=None, tag='', stall_new=0, via='event'):
     """`stall_new` = n > 0: the socket of the connection created by an 'incoming' event does not drain (slow peer)
     from the n-th frame written to it on"""
     dn = w.dn
@@ -244,19 +268,27 @@ def apply_event(c, w: World, g: Ghost, kind, conn=None, tag='', stall_new=0):
         w.ev_close(conn)
     elif kind in ('incoming', 'outgoing'):
         u = tok(c, f'u_new{tag}', 1)
-        if stall_new > 0:
+        elig = g.eligible(u) if kind == 'incoming' else None
+        if kind == 'incoming' and (stall_new > 0 or via == 'accept'):
             # through the real accept path: ListeningConnection.accept -> Network.on_peer_accepted -> PeerInitializedEvent;
-            # the connection is UNINITIALIZED until the (suspended) accept callback returns
+            # the connection is UNINITIALIZED until the (possibly suspended) accept callback returns
             nc, _ = w.accept_incoming(u, hang_from=stall_new)
-            return nc
-        nc = w.new_peer_conn(u, incoming=(kind == 'incoming'))
-        w.ev_peer_initialized(nc, requested=(kind == 'outgoing'))
+        elif kind == 'incoming' and via == 'indirect':
+            # the peer asked through the server (ConnectToPeer): the real Network._handle_connect_to_peer dials it, sends
+            # PeerPierceFirewall and emits PeerInitializedEvent(requested=False) for a connection with incoming == False
+            nc, _ = w.connect_to_peer(u)
+        else:
+            nc = w.new_peer_conn(u, incoming=(kind == 'incoming'))
+            w.ev_peer_initialized(nc, requested=(kind == 'outgoing'))
+        if elig is not None:
+            g.joining.append((nc, elig))
         return nc
     elif kind == 'connect_ok':
         w.ev_connect_ok(0)
     elif kind == 'pp_list':
         n = c.choose(2, f'pp_n{tag}') + 1
         entries = [PotentialParent(tok(c, f'pp_name{tag}_{j}', 1), '1.2.3.4', 1234) for j in range(n)]
+        g.on_potential_parents([e.username for e in entries])
         w.deliver(PotentialParents.Response(entries), w.server)
     elif kind == 'user_stats':
         user = tok(c, f'stats_user{tag}', 0, 1)
@@ -347,7 +379,7 @@ def earlier_announcements(c, g: Ghost, dn, peer, conn, kind, tag=''):
             peer.branch_root = pv.root = tok(c, f'sender_root{tag}')
 
 
-def h_step(c, roles, session=True, kinds=None):
+def h_step(c, roles, session=True, kinds=None, vias=('event', 'accept', 'indirect')):
     """one event from the arbitrary pre-state, then every clause"""
     with IntShim(c.symbolic):
         live_idx = [i for i, r in enumerate(roles) if r != 'absent']
@@ -366,7 +398,13 @@ def h_step(c, roles, session=True, kinds=None):
         if conn is not None and kind != 'close':
             earlier_announcements(c, g, dn, peers.get(sender_idx), conn, kind)
         ev = ev_sig(dn, kind, conn)
-        apply_event(c, w, g, kind, conn)
+        via = 'event'
+        if kind == 'incoming':
+            # how the peer reaches us: the bare PeerInitializedEvent, the real accept path (it dialled our listening
+            # port), or the real server-relayed path (ConnectToPeer: we dial it; connection.incoming is False)
+            via = c.pick(tuple(vias), 'via')
+            c.reach('via_' + via)
+        apply_event(c, w, g, kind, conn, via=via)
         c.reach('ev_' + kind)
         g.check(ev)
         w.cleanup()
@@ -489,7 +527,7 @@ def seq_events(w: World):
     return out
 
 
-def h_seq(c, k=3, first=None, second=None, allow=None):
+def h_seq(c, k=3, first=None, second=None, allow=None, via_mode='choose'):
     with IntShim(c.symbolic):
         w = World(c, with_session=False)
         g = Ghost(c, w)
@@ -508,10 +546,43 @@ def h_seq(c, k=3, first=None, second=None, allow=None):
             kind, idx = c.pick(evs, f'ev{step}')
             conn = w.conns[idx] if idx is not None else None
             ev = ev_sig(w.dn, kind, conn)
-            apply_event(c, w, g, kind, conn, tag=f'_{step}')
+            via = 'event'
+            if kind == 'incoming':      # real accept path or real server-relayed path
+                via = c.pick(('accept', 'indirect'), f'via{step}') if via_mode == 'choose' else ('accept', 'indirect')[step % 2]
+            apply_event(c, w, g, kind, conn, tag=f'_{step}', via=via)
             if not g.check(ev):
                 break       # report the event that broke the property, not the ones that inherit the broken state
         c.reach('seq_end')
+        w.cleanup()
+
+
+# -------------------------------------------------------------------------------------
+# H2b: the potential-parent cache.  Several PotentialParents lists (pairwise different users), then a user with a
+# symbolic name opens an incoming distributed connection while children are accepted and the limit is not reached.
+# The reference cache (last POTENTIAL_PARENTS_CACHE_SIZE proposed names, kept by the harness) decides: a proposed
+# user is not taken as child, a user that was never proposed - or whose entry was pushed out of the cache - is.
+# -------------------------------------------------------------------------------------
+
+def h_pp_cache(c, lists, via='accept'):
+    with IntShim(c.symbolic):
+        w = World(c, with_session=False)
+        g = Ghost(c, w)
+        w.ev_session_initialized()
+        g.check(['session_initialized', '-', 'no_parent', 'no_session'])
+        k = 0
+        for n in lists:
+            names = [nm(c, 10 + k + j) for j in range(n)]
+            k += n
+            g.on_potential_parents(names)
+            w.deliver(PotentialParents.Response([PotentialParent(u, '1.2.3.4', 1234) for u in names]), w.server)
+            g.check(['pp_list', '-', 'no_parent', 'session'])
+        c.reach('cache_overflowed' if k > POTENTIAL_PARENTS_CACHE_SIZE else 'cache_not_full')
+        u = tok(c, 'u_new', 9, 10 + k)          # below / inside / above the proposed range
+        elig = g.eligible(u)
+        nc, _ = w.accept_incoming(u) if via == 'accept' else w.connect_to_peer(u)
+        g.joining.append((nc, elig))
+        c.reach('child' if any(ch.connection is nc for ch in w.dn.children) else 'not_child')
+        g.check(['incoming', '-', 'no_parent', 'session'])
         w.cleanup()
 
 
@@ -563,7 +634,8 @@ FUNCS = [DistributedNetwork._get_advertised_branch_values, DistributedNetwork.ge
          DataConnection.queue_message, DataConnection.queue_messages, DataConnection.send_message, DataConnection._send,
          DataConnection.disconnect, Network.on_state_changed, Network.on_message_received, Network.send_server_messages,
          Network.remove_peer_connection, Network.on_peer_accepted, Network._finalize_peer_connection, ListeningConnection.accept,
-         DataConnection.receive_message_object, DataConnection.receive_message, DataConnection._read_message]
+         DataConnection.receive_message_object, DataConnection.receive_message, DataConnection._read_message,
+         Network._on_connect_to_peer, Network._handle_connect_to_peer, DataConnection.connect]
 
 META = {
     'level': 'other',
@@ -583,6 +655,8 @@ META = {
     'stubs': ['Network built with object.__new__: only _event_bus, peer_connections, server_connection, _MESSAGE_MAP={}, '
               '_expected_response_futures=[] are set; its real on_state_changed/on_message_received/send_server_messages/remove_peer_connection run',
               'Network.create_peer_connection -> future completed by the harness (emits PeerInitializedEvent(requested=True) from inside the task, as _make_direct_connection does)',
+              'server-relayed admission: the real Network._on_connect_to_peer / _handle_connect_to_peer / DataConnection.connect run; only asyncio.open_connection '
+              '(-> FakeReader/FakeWriter) and settings.debug.ip_overrides (-> "nothing configured", a dict lookup would hash the name token) are replaced',
               'fan-out fault harness: FakeWriter.write / drain raise ConnectionResetError once, or drain waits until released (environment faults, kept in replay)',
               'new-child stalls: the child comes in through the real ListeningConnection.accept / Network.on_peer_accepted on a FakeReader that delivers the PeerInit bytes '
               '(symbolic runs: decode_message_data of that connection returns the PeerInit object carrying the name token)',
@@ -592,10 +666,13 @@ META = {
               'symbolic runs only: distributed.int -> truncation that understands symbolic reals',
               'peer connections are put into CONNECTED/ESTABLISHED by assignment (no socket, no reader task)',
               'logging disabled', 'asyncio loop -> engine.vloop.VLoop'],
-    'data_variables': ['branch level announced by a peer / held by the parent (Int 0..2^32-2)', 'branch root tokens (6 values incl. own name)',
+    'data_variables': ['pp_cache harness: name token of the connecting user over the whole proposed range plus one below / above',
+                       'branch level announced by a peer / held by the parent (Int 0..2^32-2)', 'branch root tokens (6 values incl. own name)',
                        'user name tokens of connections and of potential-parent entries (5 values)', 'upload speed (uint32)',
                        'parent_min_speed (uint32)', 'parent_speed_ratio (1..2^32-1)', '_max_children (uint32)', '_accept_children (Bool)'],
-    'discriminants': ['role of each of the 3..4 peers (absent / candidate / child / parent / connecting)', 'event kind (12)', 'sender',
+    'discriminants': ['how an incoming peer reaches us: bare PeerInitializedEvent / real accept path / real server-relayed path (ConnectToPeer)',
+                      'pp_cache harness: lengths of the PotentialParents lists (also crossing the 20-entry cache)',
+                      'role of each of the 3..4 peers (absent / candidate / child / parent / connecting)', 'event kind (12)', 'sender',
                       'session present or not', 'which of level/root the sender announced before', 'length of the potential-parent cache (0..2) and of a list (1..2)',
                       'number of children in the limit harness (0..3)',
                       'fan-out fault harness: which child socket fails (write / drain error) or stalls, which child closes meanwhile, which parent event (level / root / loss)',
@@ -632,12 +709,15 @@ def _role_tuples(n, roles):
 def jobs(tier):
     out = []
     if tier == 'quick':
-        for t in _role_tuples(3, ('absent', 'cand', 'child', 'parent')):
+        for n, t in enumerate(_role_tuples(3, ('absent', 'cand', 'child', 'parent'))):
             for sess in (True, False):
-                out.append({'harness': 'step', 'fn': h_step, 'params': {'roles': t, 'session': sess}, 'requires': ['quiescent']})
+                # quick: the way an incoming peer reaches us rotates over the role assignments (thorough: all three each)
+                out.append({'harness': 'step', 'fn': h_step,
+                            'params': {'roles': t, 'session': sess, 'vias': [('event', 'accept', 'indirect')[(n + sess) % 3]]},
+                            'requires': ['quiescent']})
         for first in ('incoming', 'pp_list', 'user_stats', 'reset', 'session_destroyed'):
             for second in range(SEQ_SECOND[first]):
-                out.append({'harness': 'seq', 'fn': h_seq, 'params': {'k': 4, 'first': first, 'second': second},
+                out.append({'harness': 'seq', 'fn': h_seq, 'params': {'k': 4, 'first': first, 'second': second, 'via_mode': 'alternate'},
                             'requires': ['seq_end']})
     else:
         for t in _role_tuples(4, ('absent', 'cand', 'child', 'parent', 'connecting')):
@@ -655,6 +735,10 @@ def jobs(tier):
             for e1 in (('level', 'close') if tier == 'quick' else OVERLAP_EVENTS):
                 out.append({'harness': 'overlap', 'fn': h_overlap, 'params': {'roles': t, 'stall': stall, 'e1': e1},
                             'requires': ['overlapped'] if (stall == 'server' and e1 == 'level' and 'parent' in t) else []})
+    for lists in ([[2, 2], [7, 7, 7]] if tier == 'quick' else [[1, 1], [2, 2], [2, 1, 2], [10, 10], [7, 7, 7], [10, 10, 10], [19, 2]]):
+        for via in ('accept', 'indirect'):
+            out.append({'harness': 'pp_cache', 'fn': h_pp_cache, 'params': {'lists': lists, 'via': via},
+                        'requires': ['child', 'not_child', 'cache_overflowed' if sum(lists) > POTENTIAL_PARENTS_CACHE_SIZE else 'cache_not_full']})
     ff_roles = [['parent', 'child', 'child', 'child']] if tier == 'quick' else \
         [['parent', 'child', 'child', 'child'], ['child', 'parent', 'child', 'child'], ['parent', 'child', 'child', 'cand']]
     for t in ff_roles:
